@@ -256,12 +256,80 @@ def reply_settles(P, R, cl, rule='C03.MPT.2'):
     R.floor(rule, 1)
 
 
+def reader_drains(P, R, rule='C03.MPT.3'):
+    """"In the same step as the event": the input handler is woken when the descriptor becomes readable, not when
+    complete lines are still sitting in its private buffer - so once it has read, it dispatches EVERY complete line
+    before it returns.  The line loop is left only where the line reader says there is no further complete line (a
+    batch limit or any other early exit leaves events unprocessed until the server happens to write again)."""
+    rd, disp = core.reader_dispatch(P)
+    def has_readln(b):
+        c = rd.term_cond(b)
+        return c is not None and any(isinstance(x, dict) and x.get('k') == 'callref' and x.get('callee') == 'evbuffer_readln' for x in walk(c))
+    heads = [b for b in rd.reachable_blocks() if has_readln(b)]
+    if not heads:
+        raise AnalysisBroken('the input handler no longer takes its lines from evbuffer_readln in a loop condition')
+    for b in heads:
+        fwd = rd.reach([e.dst for e in rd.out[b]])
+        loop = {x for x in fwd if b in rd.reach([e.dst for e in rd.out[x]])} | {b}
+        if loop == {b} and b not in fwd:
+            raise AnalysisBroken('the line reader is not in a loop')
+        exits = []
+        for x in loop:
+            for e in rd.out[x]:
+                if e.dst in loop:
+                    continue
+                if x == b:
+                    r = e.rel()
+                    if r and r[1] == '==' and const_of(r[2]) == 0:
+                        continue       # no further complete line
+                # leaving because the process is about to exit is not an event left behind
+                ss = rd.block_sites(e.dst)
+                if ss and any(t.ev['k'] == 'call' and t.ev.get('callee') in ('exit', '_exit', 'event_base_loopbreak', 'event_base_loopexit') for t in ss):
+                    continue
+                exits.append((x, e))
+        R.ob(rule, not exits, rd, 'the line loop of %s is left only when no complete line is left in the buffer%s' % (rd.name, '' if not exits else ' (it can also be left %s)' % '; '.join(e.describe() for _, e in exits[:2])), key='reader-drains')
+    # what was read is parsed: the only consumer of the input buffer is the line reader (nothing drains or drops
+    # buffered bytes, which may hold complete lines of any client), the descriptor is read once per wake-up (a second
+    # read may block, or meet the end of input with unparsed lines still buffered), and after a read that brought
+    # bytes every path reaches the line loop
+    reads = [t for t in rd.calls('evbuffer_read')]
+    if not reads:
+        raise AnalysisBroken('the input handler no longer reads with evbuffer_read')
+    inbuf = {sx(t.ev['args'][0]) for t in reads}
+    for f in P.unit_fns(rd.unit):
+        for t in f.calls():
+            c = t.ev.get('callee') or ''
+            if c.startswith('evbuffer_') and c not in ('evbuffer_read', 'evbuffer_readln', 'evbuffer_new', 'evbuffer_free', 'evbuffer_get_length') and t.ev['args'] and (sx(t.ev['args'][0]) in inbuf or is_var(t.ev['args'][0], 'iauth_in')):
+                R.ob(rule, False, t, 'buffered input is consumed only by the line reader (%s takes bytes out of it)' % c, key='input-consumer:%s' % c)
+    for t in reads:
+        on_cycle = t.bid in rd.reach([e.dst for e in rd.out[t.bid]])
+        R.ob(rule, not on_cycle, t, 'the descriptor is read once per wake-up', key='read-once')
+        resv = None
+        for u in rd.stores():
+            if (u.ev.get('rhs') or {}).get('ev') == t.ev.get('id') and is_var(u.ev.get('lhs')):
+                resv = u.ev['lhs']['name']
+
+        def in_loop(u, heads=tuple(heads)):
+            return u.bid in heads
+        # paths from the read to the exit that avoid the line loop must pass a test saying the read brought nothing
+        cut = []
+        for b in rd.reachable_blocks():
+            for e in rd.out[b]:
+                r = e.rel() if e.cond is not None and e.label not in ('case', 'default') else None
+                if r and resv and is_var(r[0], resv) and isinstance(const_of(r[2]), int) and ((r[1] in ('<', '<=') and const_of(r[2]) <= 0) or (r[1] == '==' and const_of(r[2]) <= 0)):
+                    cut.append(e)
+        live = rd.reach([t.bid], cut_edges=cut, cut_blocks=list(heads))
+        R.ob(rule, rd.exit not in live, t, 'after a read that brought bytes every path reaches the line loop', key='read-then-parse')
+    R.floor(rule, 3)
+
+
 def run(P, R, tier):
     # a reply can only end the wait if its routing tag is read back the way it was written
     r, sepch, idv, serv = c04.tag_tables(P, Remap(R, {'C04.TAB.1': 'C03.TAB.1'}))
     cl = c04.lookup_discipline(P, Remap(R, {}))
     c04.lookup_skips(P, Remap(R, {'C04.GRD.3': 'C03.GRD.4'}), cl)
     reply_settles(P, R, cl)
+    reader_drains(P, R)
     blank_ident(P, R)
     dirty_entries(P, R)
     counter_discipline(P, R)
